@@ -6,7 +6,10 @@ import random, simpy
 from . import common
 
 KINDS = {"buffer": ("base.buffer_store", "BufferStore"),
-         "fleet": ("base.fleet_store", "FleetStore")}
+         "fleet": ("base.fleet_store", "FleetStore"),
+         "belt": ("base.belt_store", "BeltStore"),
+         "slot": ("base.slotted_belt_store", "BeltStore")}
+BELTS = ("belt", "slot")
 FOREIGN = 1000
 
 
@@ -20,10 +23,23 @@ class Obj:
         return "O%d" % self.i
 
 
+class BeltItem:
+    """what a conveyor hands to its belt store: id, length, conveyor_entry_time"""
+
+    def __init__(self, i, now):
+        self.i = i
+        self.id = "it%d" % i
+        self.length = 1
+        self.conveyor_entry_time = now
+
+    def __repr__(self):
+        return "B%d" % self.i
+
+
 def oid(x):
     if isinstance(x, tuple):
         x = x[0]
-    return x.i if isinstance(x, Obj) else -1
+    return x.i if isinstance(x, (Obj, BeltItem)) else -1
 
 
 class Impl:
@@ -34,8 +50,12 @@ class Impl:
         self.env = simpy.Environment()
         if kind == "buffer":
             self.st = getattr(m, cls)(self.env, capacity=cap, mode=mode)
-        else:
+        elif kind == "fleet":
             self.st = getattr(m, cls)(self.env, capacity=cap, delay=fdelay, transit_delay=transit)
+        elif kind == "belt":
+            self.st = getattr(m, cls)(self.env, capacity=cap, speed=1, accumulation_mode_indicator=bool(transit % 2))
+        else:
+            self.st = getattr(m, cls)(self.env, capacity=cap, mode=mode, delay=1)
         self.callers, self.toks, self.tokid, self.foreign = {}, [], {}, {}
 
     def caller(self, p):
@@ -76,15 +96,20 @@ class Impl:
             if k in ("RPUT", "RGET"):
                 env._active_proc = self.caller(op[1])
                 f = st.reserve_put if k == "RPUT" else st.reserve_get
-                e = f(op[2]) if self.kind == "fleet" else f()
+                e = f(op[2]) if self.kind in ("fleet", "slot") else f()
                 self.tokid[id(e)] = len(self.toks)
                 self.toks.append(e)
                 before.append(False)
                 res = "tok:%d" % (len(self.toks) - 1)
             elif k == "PUT":
                 env._active_proc = self.caller(op[1])
-                o = Obj(op[3])
-                r = st.put(self.ev(op[2]), (o, op[4]) if self.kind == "buffer" else o)
+                if self.kind in BELTS:
+                    o = BeltItem(op[3], env.now)
+                    r = st.put(self.ev(op[2]), (o, self.cap))   # travel time = capacity * slot time (1)
+                    self.settle()
+                else:
+                    o = Obj(op[3])
+                    r = st.put(self.ev(op[2]), (o, op[4]) if self.kind == "buffer" else o)
                 res = "ok" if r else "ret:%r" % (r,)
             elif k == "GET":
                 env._active_proc = self.caller(op[1])
@@ -107,6 +132,16 @@ class Impl:
         trig = self.trig_order(before)
         return res, trig
 
+    def settle(self):
+        """run the URGENT events of the current instant (process starts): the belt stores read item
+        attributes that their move process sets when it starts"""
+        env = self.env
+        while env._queue and env._queue[0][0] == env.now and env._queue[0][1] <= 0:
+            try:
+                env.step()
+            except Exception:  # noqa  (a stale `until` marker of env.run raises StopSimulation)
+                pass
+
     def pop(self):
         """one kernel event; returns (model ops, newly triggered tokens, error)"""
         st = self.st
@@ -120,7 +155,20 @@ class Impl:
         seen = set(ready_before)
         mops = [("READY", oid(x)) for x in st.ready_items if id(x) not in seen]
         trig = self.trig_order(before)
+        if self.kind in BELTS:
+            g = self.gate_guess(trig)
+            if mops:
+                mops = [("GATE", g)] + mops
+            elif g:
+                mops = [("GATE", 1), ("TRIGPUT",)]
         return mops, trig, err
+
+    def gate_guess(self, trig):
+        """belts: the spacing test is time driven; read its outcome off the implementation (a put
+        request was granted in this op <=> the gate was open) -- the model keeps deciding the
+        capacity test, the queue discipline, bindings and errors itself"""
+        puts = set(self.tokid[id(e)] for e in self.st.reservations_put if id(e) in self.tokid)
+        return 1 if any(int(t) in puts for t in trig.split(",") if t) else 0
 
 
 def run_impl(case):
@@ -155,7 +203,10 @@ def run_impl(case):
             res, trig = im.api(op)
             micro.append(op)
             rows.append((res, trig, im.state()))
-            mops.append([op[:4] if k == "PUT" else op])
+            m = [op[:4] if k == "PUT" else op]
+            if im.kind in BELTS and k in ("RPUT", "GET", "CPUT"):
+                m = [("GATE", im.gate_guess(trig))] + m
+            mops.append(m)
     return micro, rows, mops, im
 
 
@@ -191,7 +242,7 @@ FIELDS = ("items", "ready", "putq", "putres", "getq", "getres")
 
 def gen_case(rng, kind, n_ops, malformed=False):
     cap = rng.choice([1, 1, 2, 2, 3, 4, 6])
-    mode = rng.choice(["FIFO", "LIFO"]) if kind == "buffer" else "FIFO"
+    mode = rng.choice(["FIFO", "LIFO"]) if kind in ("buffer", "slot") else "FIFO"
     case = dict(model="storeb", kind=kind, mode=mode, cap=cap,
                 fdelay=rng.choice([1, 2, 4, 7]), transit=rng.choice([0, 0, 1, 2]))
     im = Impl(kind, mode, cap, case["fdelay"], case["transit"])
@@ -217,6 +268,8 @@ def gen_case(rng, kind, n_ops, malformed=False):
             choices.append(("CGET", 4))
         if malformed:
             choices.append(("BAD", 6))
+        if kind in BELTS:
+            choices += [("ADV", 4), ("STEP", 2)]
         k = rng.choices([c for c, _ in choices], [w for _, w in choices])[0]
         if k == "RPUT":
             op = ("RPUT", rng.randrange(nprocs), rng.choice(prios))
